@@ -80,8 +80,13 @@ func cmdC05(args []string) error {
 	for _, et := range allEtypes {
 		e := mustEtype(et)
 		for n := 0; n <= *maxLen; n++ {
-			for j := 0; j < perCell; j++ {
-				u := usageSet[(rot+n*perCell+j)%len(usageSet)]
+			for j := 0; j < perCell+1; j++ {
+				var u uint32
+				if j < perCell {
+					u = usageSet[(rot+n*perCell+j)%len(usageSet)]
+				} else {
+					u = uint32(1 + r.Intn(2047)) // one seeded usage outside the fixed set per cell
+				}
 				key := randKey(r, et)
 				plain := rbytes(r, n)
 				line := map[string]interface{}{"ev": "enc", "et": et, "key": hx(key), "u": be32(u), "plain": hx(plain)}
